@@ -13,6 +13,19 @@ NA = {
 PENDING = "check not built yet (planned, DESIGN.md section 6)"
 
 CHECKS = {
+    "C16": dict(
+        category="proof",
+        text="Non-interference by a comment-only effect judgement over the real AST: every read of debug, debug_index, "
+             "doxygen, literalinclude, show_splicer_comments and of config.write_version (60 sites) is the test of an `if` "
+             "or initialises a local flag, and everything such a test controls only appends comment lines or blank lines, "
+             "calls comment-only procedures, fills lists that only ever receive comment lines, or assigns locals used only "
+             "there; user-supplied doxygen texts reach the output one prefixed line at a time. One genuine defect found "
+             "and fixed. _create_splicer's independence of show_splicer_comments is proved under C12.",
+        design_ref="6/C16",
+        note="Syntactic judgement; assumes comment stripping of the target languages removes exactly what it calls a comment "
+             "line. Library-level literalinclude/literalinclude2 excluded by the property. Whole-run relation only monitored.",
+        technique="contract-based verification of comment-only (non-interference) contracts by effect judgement over the real code",
+    ),
     "C07": dict(
         category="proof",
         text="Frame and purity contracts of main.main_with_args, decided by a function-by-function effect inference over the "
@@ -160,7 +173,7 @@ def main():
                 "thorough_cmd": "./check %s --tier thorough" % p,
                 "evidence_file": "evidence/%s.json" % p,
                 "replay_cmd_template": "./check %s --replay {path}" % p,
-                "engine": "effects" if p == "C07" else ("pyvc" if c["category"] == "proof" else "tables"),
+                "engine": "effects" if p in ("C07", "C16") else ("pyvc" if c["category"] == "proof" else "tables"),
                 "level_claimed": {"category": c["category"], "text": c["text"], "design_ref": c["design_ref"]},
                 "level_note": c["note"],
                 "technique": c["technique"],
@@ -178,7 +191,7 @@ def main():
             "add_only": True,
         },
         "engines": [
-            {"name": "effects", "path": "effects/", "serves_properties": ["C07"],
+            {"name": "effects", "path": "effects/", "serves_properties": ["C07", "C16"],
              "kind_free_text": "effect checker: modifies-contracts over module/class-level mutable roots, bottom-up effect summaries per function"},
             {"name": "tables", "path": "tables/", "serves_properties": ["C04", "C05", "C06", "C10"],
              "kind_free_text": "table-invariant evaluator: closed representation invariants over the constant tables the real modules build, decided exhaustively on every run"},
